@@ -160,6 +160,9 @@ fn gen_headers(rng: &mut Rng, malformed: bool) -> Vec<(String, String)> {
         };
         let value = if name.eq_ignore_ascii_case("content-type") && rng.coin(9, 10) {
             rng.pick(&CTYPES).to_string()
+        } else if name.eq_ignore_ascii_case("content-length") {
+            // a declared length that has nothing to do with the body
+            rng.pick(&["18446744073709551615", "9223372036854775808", "99999999999999", "4294967296", "-1", "0", "7", "1e9", "", "12 "]).to_string()
         } else {
             match rng.below(6) {
                 0 | 1 => gen_text_mode(rng, 16, if malformed { 10 } else { 0 }, !malformed || a2),
